@@ -77,6 +77,7 @@
 #include "upipe-modules/upipe_audiocont.h"
 #include "upipe-modules/upipe_audio_split.h"
 #include "upipe-modules/upipe_audio_merge.h"
+#include "upipe-modules/upipe_grid.h"
 #include "upipe-modules/upipe_multicat_probe.h"
 #include "upipe/ubuf_pic_mem.h"
 #include "upipe/ubuf_sound_mem.h"
@@ -157,6 +158,7 @@ struct row {
     bool out_not_block;        /* the pipe asks for a non-block buffer manager: the sinks never answer requests themselves (they only have a block manager) */
     unsigned in_shapes;        /* mask of the input shapes offered (0: all five) */
     bool pic_size_oracle;      /* C04: every picture delivered to a sink has the hsize / vsize of the last definition that sink accepted */
+    struct upipe *(*tick_pipe)(struct side *); /* with pump_to_main: the pipe that takes the buffers of the upstream pump (NULL: the main pipe) */
     bool sub0_selects;         /* sub_alloc selects subpipe 0 as the input with the subpipe's own command, which is documented to forget the name given to
                                 * option 0 (set_input by name): the model of that option goes back to value 0 (no name) */
 };
@@ -240,6 +242,7 @@ struct st {
     bool disturbed_after_input; /* output / sink answer / flush / definition touched after the first input */
     bool ready_at_first_input;  /* S0 connected, accepting, definition accepted when the first buffer came */
     bool flushed, out_changed, sink_toggled, opt_changed_after_input;
+    int refused_opt;        /* the step just made was a setter of this option and it was refused (-1: no) */
     int ninputs;
     int nops;
     char viol_sig[128], viol_msg[700];
@@ -1389,6 +1392,40 @@ static struct uref *mk_mono(struct side *s, int seq, int sh, struct ubuf **held_
     return u;
 }
 
+/* grid: the first subpipe is a grid input (pictures: F1 8x4, F2 4x4), the second a grid output, allocated with its reference definition and
+ * connected to the input; the buffers of the upstream pump (no payload, dated) go to the grid output and pace it; its output is S3 */
+static struct upipe *alloc_grid(struct side *s)
+{
+    struct upipe *p = upipe_void_alloc(upipe_grid_mgr_alloc(), px_probe(&s->fx));
+    assert(p);
+    ubase_assert(upipe_attach_uclock(p));
+    return p;
+}
+static struct upipe *sub_grid(struct side *s, int k)
+{
+    if (k == 0)
+        return upipe_grid_alloc_input(s->pipe, px_probe(&s->fx));
+    struct upipe *out = upipe_grid_alloc_output(s->pipe, px_probe(&s->fx));
+    assert(out);
+    struct uref *f = px_flow(&s->fx, "pic.", 9);
+    ubase_assert(upipe_set_flow_def(out, f));
+    uref_free(f);
+    ubase_assert(upipe_grid_out_set_input(out, s->subs[0]));
+    return out;
+}
+static struct upipe *tick_grid(struct side *s) { return s->subs[1]; }
+static struct uref *mk_grid(struct side *s, int seq, int sh, struct ubuf **held_p)
+{
+    struct uref *u;
+    if (s->in_pump) {
+        u = uref_alloc(s->fx.uref_mgr);
+        assert(u);
+    } else
+        u = cat_pic(s, side_pic_mgr(s), seq, sh, s->st->flow == 2 ? 4 : 8, 4, held_p);
+    cat_stamp(u, seq);
+    return u;
+}
+
 /* ------------------------------------------------------------------ */
 /* expected transformations (documented changes), written independently   */
 /* ------------------------------------------------------------------ */
@@ -1651,6 +1688,9 @@ static const struct row rows[] = {
      .in_shapes = 1 << 0 | 1 << 1 | 1 << 4, .nopts = 3,
      .opt = {{"input", 3, acname_set, acname_get, cont_name_vs, "null"}, {"latency", 2, aclat_set, aclat_get, cont_u64_vs, "0"},
              {"crossblend", 2, acxb_set, acxb_get, cont_u64_vs, "5400000"}}},
+    {.name = "grid", .kind = K_RECHUNK, .alloc = alloc_grid, .has_subs = true, .sub_io = true, .pump_to_main = true, .sub_alloc = sub_grid, .tick_pipe = tick_grid,
+     .uses_pumps = true, .bad_def = "block.", .in_def = "pic.", .flow_fix = fix_videocont_sub, .mk_input = mk_grid, .pic_w = 8, .pic_h = 4, .out_def_prefix = "pic.",
+     .out_not_block = true, .pic_size_oracle = true, .in_shapes = 1 << 0 | 1 << 4},
     {.name = "audio_merge", .kind = K_RECHUNK, .alloc = alloc_audio_merge, .has_subs = true, .sub_io = true, .bad_def = "block.", .in_def = "sound.f32.",
      .flow_fix = fix_mono, .mk_input = mk_mono, .out_def_prefix = "sound.f32.", .out_not_block = true},
     {.name = "audio_split", .kind = K_RECHUNK, .alloc = alloc_audio_split, .bad_def = "block.", .in_def = "sound.s32.", .flow_fix = fix_sound, .mk_input = mk_sound,
@@ -1784,6 +1824,8 @@ static void src_pump_cb(struct upump *upump)
     struct st *st = g_cur_st;
     if (s->pipe == NULL || (!g_row->pump_to_main && (in_pipe(s) == NULL || st->flow == 0)))
         return;
+    if (g_row->tick_pipe && g_row->tick_pipe(s) == NULL)
+        return;
     s->in_pump = true;
     do_input(st, s, 0, s == &st->a, false);
     s->in_pump = false;
@@ -1898,7 +1940,7 @@ static void run_getters(struct st *st, struct side *s, const char *when)
             FAIL(st, sg, "getter of option '%s' returned error %d %s", o->name, e, when);
         } else if (strcmp(got, want)) {
             char sg[64];
-            snprintf(sg, sizeof(sg), "get-%s:wrong-value", o->name);
+            snprintf(sg, sizeof(sg), st->refused_opt == oi ? "get-%s:changed-by-refused-setter" : "get-%s:wrong-value", o->name);
             FAIL(st, sg, "getter of option '%s' returned %s, last accepted value is %s (%s)", o->name, got, want, when);
         }
     }
@@ -2032,7 +2074,7 @@ static void do_input(struct st *st, struct side *s, int sh, bool primary, bool r
                 for (int k = 0; k < 4; k++)
                     x->mustnot[k] = true;
         }
-        upipe_input(s->in_pump && g_row->pump_to_main ? s->pipe : in_pipe(s), u, s->in_pump ? &s->src_pump : NULL);
+        upipe_input(s->in_pump && g_row->pump_to_main ? (g_row->tick_pipe ? g_row->tick_pipe(s) : s->pipe) : in_pipe(s), u, s->in_pump ? &s->src_pump : NULL);
     }
 }
 
@@ -2163,6 +2205,7 @@ static bool op_enabled(struct st *st, int op)
         return r->has_subs && !r->sub_io && !s->probe_teardown;
     if (op == OP_IN_PUMP)
         return r->kind != K_SINK && (st->flow != 0 || r->pump_to_main) && st->nseq < MAXSEQ - 1 && vmock_pump_from_upump(s->src_pump)->active &&
+               (!r->tick_pipe || r->tick_pipe(s) != NULL) &&
                !(!strncmp(r->name, "skip", 4) && st->optmodel[0] >= 0 && (int)skip_vals[st->optmodel[0]] > shapes[0].size) &&
                !(!strcmp(r->name, "genaux") && st->optmodel[0] == 2);
     if (op == OP_TD_ORDER)
@@ -2283,6 +2326,7 @@ static int apply(void *vst, int op, bool check)
     st->hist_hash = st->hist_hash * 1000003ULL + (uint64_t)op + 1;
 
     /* ---- C20 ---- */
+    st->refused_opt = op >= OP_OPT0 && op < OP_OPT0 + MAXOPT * MAXVAL && !ubase_check(ea) ? (op - OP_OPT0) / MAXVAL : -1;
     if ((g_oracle & O_C20) && !st->released) {
         char when[160], ob[96];
         opstr(op, ob, sizeof(ob));
